@@ -1729,6 +1729,7 @@ class BADS:
 
         else:
             # Search set is empty
+            u_search = None
             y_search = self.yval
             f_mu_search = self.fval
             f_sd_search = 0
